@@ -13,7 +13,10 @@
 
 Every effect records WHICH path it names (tmp = the name `tmppath`, target = the parameter `path`, anything else =
 other), so that also writing to the target, dropping the remove, swallowing the exception, catching a narrower class or
-deriving the temporary name from fewer parts each change the generated skeleton.
+deriving the temporary name from fewer parts each change the generated skeleton.  The identity parts of the name must be
+evaluated in the f-string of the call itself (`os.getpid()`, the thread ident): any other expression there is emitted as
+`.other` AND flagged (`extractOk := false`, full skeleton still emitted), because a value computed outside the call — cached
+per thread, per module, per object — can be the identity of an earlier caller (it survives os.fork()).
 """
 import ast
 from leanlit import *
@@ -66,6 +69,7 @@ class Site:
         self.cached_pid_names = set(cached_pid_names)
         self.tmp_name = None
         self.data_names = set()      # names bound to generate_latest(registry)
+        self.flags = []              # non-fatal: the skeleton is still emitted in full, but extractOk is false
 
     def ref(self, n):
         if isinstance(n, ast.Name) and n.id == self.tmp_name: return '.tmp'
@@ -90,7 +94,13 @@ class Site:
                 elif src == 'os.getpid()': parts.append('.pid')
                 elif src in self.cached_pid_names: parts.append('.cachedPid')
                 elif src in ('threading.current_thread().ident', 'threading.get_ident()'): parts.append('.threadIdent')
-                else: parts.append('.other %s' % chars(src))
+                else:
+                    # the identity of the caller must be read IN the call, on every call: anything else (a helper, a cached
+                    # attribute, a thread-local, a module constant) may hold the pid/thread of an EARLIER caller — e.g. survive os.fork()
+                    parts.append('.other %s' % chars(src))
+                    self.flags.append('part {%s} of the temporary name is not os.getpid() / threading.current_thread().ident / '
+                                      'threading.get_ident() evaluated inside write_to_textfile on each call: it is not known to '
+                                      'reflect the CURRENT process and thread (a value computed once survives os.fork())' % src)
             else:
                 raise Fail('temporary name part not understood')
         return parts
@@ -188,6 +198,8 @@ def generate(repo):
             raise Fail('caught class is not a single name: %s' % ast.unparse(h.type))
         v['body'] = s.block(tr.body)
         v['handler'] = s.block(h.body, None, True)
+        if s.flags:
+            return _emit(False, v, '; '.join(s.flags))
         return _emit(True, v)
     except Fail as e:
         return _emit(False, v, str(e))
